@@ -46,6 +46,10 @@ func genMetrics(rng *rand.Rand, o *afmOpts, maxGlyphs int) *afm.Metrics {
 		}
 		return v
 	}
+	offOrigin := rng.IntN(4) == 0
+	if offOrigin {
+		o.f("all glyph boxes off the origin")
+	}
 	for _, name := range names {
 		g := m.Glyphs[name]
 		g.WidthX = num(0, 2000)
@@ -56,6 +60,9 @@ func genMetrics(rng *rand.Rand, o *afmOpts, maxGlyphs int) *afm.Metrics {
 		case 0: // blank glyph
 		default:
 			llx, lly := num(-1000, 1000), num(-1000, 1000)
+			if offOrigin {
+				llx, lly = num(10, 500), num(10, 500)
+			}
 			g.BBox = rect.Rect{LLx: llx, LLy: lly, URx: llx + num(0, 1500), URy: lly + num(0, 1500)}
 		}
 		nl := 0
